@@ -154,30 +154,13 @@ theorem setBytes_fiatN (v : Bytes) :
     | err => exact ⟨fun x h => (by cases h), fun h => (by cases h), fun _ => rfl⟩
     | panic => exact ⟨fun x h => (by cases h), fun h => (by cases h), fun _ => rfl⟩
 
-/-- the scalar wrapper (early-exit comparison) on limbs -/
+/-- the scalar wrapper (the same code as `setBytes`) on limbs -/
 theorem scalarSetBytes_fiatN (v : Bytes) :
     (∀ x, scalarSetBytes Model.SM2.Fn v = .ok x →
       ∃ l, scalarSetBytes fiatN v = .ok l ∧ Canon Spec.SM2.n l ∧ eval l = x) ∧
     (scalarSetBytes Model.SM2.Fn v = .err → scalarSetBytes fiatN v = .err) := by
-  unfold scalarSetBytes
-  rw [minusOne_fiatN]
-  by_cases hl : v.length ≠ 32
-  · simp only [if_pos hl]
-    exact ⟨fun x h => (by cases h), fun _ => trivial⟩
-  · simp only [if_neg hl]
-    have hl' : v.reverse.length = 32 := by rw [List.length_reverse]; omega
-    obtain ⟨hlimbs, hval⟩ := FiatRefine.scalarFromBytes_refines v.reverse hl'
-    have hto := FiatMontN.toMontgomery_spec' _ hlimbs
-    have hre := FiatRefine.scalarToMontgomery_refines _ hlimbs
-    by_cases hc : scalarSetBytesCheck v (minusOneEncoding Model.SM2.Fn) = true
-    · simp only [hc, if_true]
-      exact ⟨fun x h => (by cases h), fun _ => trivial⟩
-    · simp only [hc]
-      refine ⟨fun x h => ?_, fun h => (by cases h)⟩
-      injection h with h
-      refine ⟨_, rfl, hto.1, ?_⟩
-      show eval (Gen.FiatN.sm2ScalarToMontgomery (Gen.FiatN.sm2ScalarFromBytes (v.reverse.map UInt8.toNat))) = x
-      rw [hre, hval]; exact h
+  rw [FiatWrappers.scalarSetBytes_eq_setBytes, FiatWrappers.scalarSetBytes_eq_setBytes]
+  exact ⟨(setBytes_fiatN v).1, (setBytes_fiatN v).2.1⟩
 
 theorem equal_fiatN (e t : List Nat) (he : Limbs4 e) (ht : Limbs4 t) :
     equal fiatN e t = equal Model.SM2.Fn (eval e) (eval t) := by
